@@ -71,10 +71,10 @@ THEOREMS = [("Kopf.Props.C20", "Kopf.C20." + n) for n in [
     "worker_failure_stops_all", "exit_bound_partial", "noncooperative_exit_unbounded_witness",
     "failure_to_stop_bound_partial", "stream_failure_stops_all", "gone_is_not_a_failure",
     "historical_stream_failure_lingers_witness", "core_failure_stops_all", "historical_core_failure_lingers_witness",
-    "historical_core_failure_skips_cleanup_witness"]]
+    "historical_core_failure_skips_cleanup_witness", "double_cancel_abandons_ensemble_witness", "shielded_never_abandoned"]]
 TIE_THEOREMS = [("Kopf.Tie.C20", "Kopf.C20.Tie." + n) for n in [
     "escalates_eq", "head_is_fixed", "ignores_not_found_eq", "restarts_exited_eq", "scan_cancels_children_eq",
-    "watches_core_eq", "head_core_variant"]]
+    "watches_core_eq", "head_core_variant", "shields_stop_eq", "head_shield_variant"]]
 RULE = ("seeded lifecycle histories: 0-2 startup handlers (ok / sleeping / temporary with retries / permanent / retries "
         "exhausted), 0-2 cleanup handlers (ok / sleeping / temporary / permanent), 0-2 daemons (obey / needs cancellation / "
         "swallows one cancellation / exits on its own; with and without cancellation_timeout/backoff), in-flight update handlers "
@@ -220,6 +220,12 @@ def extract(ctx: Ctx) -> None:
                 stops = any("aiotasks.stop" in x for x in src)
                 raises = [n for n in ast.walk(h) if isinstance(n, ast.Raise) and isinstance(n.exc, ast.Name) and n.exc.id in recorded]
                 reraises = reraises or (stops and bool(raises))
+    # (4b) ... and is that stop shielded from a SECOND cancellation (`asyncio.shield` inside the handler, as queueing.watcher does)?
+    shields_stop = False
+    for tnode in [n for n in ast.walk(orch) if isinstance(n, ast.Try)]:
+        for h in tnode.handlers:
+            if h.type is not None and "CancelledError" in ast.unparse(h.type):
+                shields_stop = shields_stop or (bool(_calls(h, "shield")) and any("aiotasks.stop" in ast.unparse(x) for x in h.body))
     # (5) terminate_redundancies: exited tasks make their key redundant
     term = _find_def(otree, "terminate_redundancies")
     comps = [n for n in ast.walk(term) if isinstance(n, ast.SetComp)]
@@ -268,7 +274,7 @@ def extract(ctx: Ctx) -> None:
     core_after_cleanup = bool(core_reraise) and all(l > max(cleanup_lines) for l in core_reraise)
     ctx.extra["core_awaited_by_stop_flag_checker"] = checker_awaits_core and root_awaits_core
     facts = {"rootTaskAwaitsCore": root_awaits_core, "coreErrorsAfterCleanup": core_after_cleanup,
-             "attachesDoneCallback": attaches, "callbackCancelsOrchestrator": cancels, "callbackIgnoresNotFound": ignores404,
+             "orchestratorShieldsStop": shields_stop, "attachesDoneCallback": attaches, "callbackCancelsOrchestrator": cancels, "callbackIgnoresNotFound": ignores404,
              "reraisesTaskError": reraises, "doneTasksAreRedundant": done_redundant, "scanGathers": gathers,
              "scanCancelsInFinally": cancels_children, "scanUsesAsCompleted": uses_as_completed}
     ctx.extra["extracted_facts"] = facts
@@ -329,9 +335,9 @@ def coop_daemons(sc: dict) -> set[str]:
         (h["daemon"].get("mode") in ("cancel", "exit") and (h.get("opts") or {}).get("cancellation_timeout") is not None))}
 
 
-def model_cfg(sc: dict, fixed: bool, core_watched: bool) -> dict:
+def model_cfg(sc: dict, fixed: bool, core_watched: bool, orch_shielded: bool = False) -> dict:
     g = graces(sc)
-    return {"fixed": fixed, "coreWatched": core_watched, "E": ticks(g["E"]), "W": ticks(g["W"]), "D": ticks(g["D"]),
+    return {"fixed": fixed, "coreWatched": core_watched, "orchShielded": orch_shielded, "E": ticks(g["E"]), "W": ticks(g["W"]), "D": ticks(g["D"]),
             "C": ticks(g["C"]), "H": ticks(g["H"])}
 
 
@@ -391,6 +397,11 @@ def abstract(obs: dict, sc: dict | None = None, checker_awaits_core: bool = Fals
         if kind in ("spawn", "spawned", "rtWaitDone", "rtCancelled", "rtStopRootsEnd", "rtHungWaitEnd", "rtStopHungEnd",
                     "rtReraise", "scReraiseCore", "scCleanupBegin", "orchStopSubsEnd", "stopperEnd", "zombies",
                     "poisoned", "scStopCoreCancelled", "abandoned"):
+            continue
+        if kind == "orchStopSubsCancelled":
+            # the orchestrator's `await aiotasks.stop(ensemble)` was interrupted by a second cancellation (finding C20-F8):
+            # the model does not describe the code beyond this label — the driver stops comparing here ("truncated")
+            put("orchAbandon")
             continue
         if kind == "killerFinally":
             if not killer_stopping:
@@ -1211,12 +1222,14 @@ def _evaluate(ctx: Ctx, histories: list[dict], tie: bool = True) -> None:
                                   f"{str(core_watched).lower()}: " + ("a root task awaits the core tasks)" if core_watched else
                                                                       "nobody awaits the core task, finding C20-F6)"))
     swap = bool(ctx.extra.get("core_awaited_by_stop_flag_checker"))
+    orch_shielded = bool(xf.get("orchestratorShieldsStop"))
     # non-cooperative runs (open finding C20-F7: the operator never returns) are outside `ReachC`: oracle only
     if noncoop:
         pass
         histories = [sc for k, sc in enumerate(histories) if k not in noncoop]
         obs_list = [o for k, o in enumerate(obs_list) if k not in noncoop]
-    reqs = [["C20.trace", model_cfg(sc, fixed, core_watched), abstract(obs, sc, swap)] for sc, obs in zip(histories, obs_list)]
+    reqs = [["C20.trace", model_cfg(sc, fixed, core_watched, orch_shielded), abstract(obs, sc, swap)]
+            for sc, obs in zip(histories, obs_list)]
     try:
         outs = ctx.driver.ask(reqs)
     except leanio.LeanError as e:
@@ -1234,6 +1247,10 @@ def _evaluate(ctx: Ctx, histories: list[dict], tie: bool = True) -> None:
             ctx.tie_fail(f"the model rejects the observed trace at label {i}: {m['reason']}",
                          {"history": sc, "label": m["label"], "reason": m["reason"], "model_state": m["state"],
                           "context": req[2][max(0, i - 12): i + 3]})
+            continue
+        if m.get("truncated"):
+            # the run left the model at `orchAbandon` (finding C20-F8, reported by the oracle): compared up to that label only
+            ctx.count("tie_truncated_at", "orchAbandon (C20-F8)")
             continue
         fin = m["final"]
         ret = obs.get("returned")
